@@ -132,6 +132,87 @@ theorem h2_needs_host (method scheme target : Bytes) (hs : List Header) :
   unfold h2Headers
   split <;> simp_all
 
+/-! ### HTTP/2 heads that cannot legally be encoded -/
+
+/-- Tie A: httpcore leaves h2's validation of outgoing header blocks switched on. -/
+theorem h2_validation_on : Gen.h2ValidatesOutbound = true ∧ Gen.h2NormalizesOutbound = true := by decide
+
+/-- **C03.h2_illegal_rejected** — a head whose HTTP/2 form h2 refuses is rejected and nothing is
+handed on (so nothing is written), for every method, target and header list. -/
+theorem h2_illegal_rejected (method scheme target : Bytes) (hs l : List Header) (e : Bool)
+    (h : h2Headers method scheme target hs = some (l, e)) (hr : h2Refuses l = true) :
+    h2SendHead Gen.h2ValidatesOutbound method scheme target hs = .rejected := by
+  simp [h2SendHead, h, hr, h2_validation_on.1]
+
+/-- and a head it accepts is handed on unchanged -/
+theorem h2_legal_handed (method scheme target : Bytes) (hs l : List Header) (e : Bool)
+    (h : h2Headers method scheme target hs = some (l, e)) (hr : h2Refuses l = false) :
+    h2SendHead Gen.h2ValidatesOutbound method scheme target hs = .handed l e := by
+  simp [h2SendHead, h, hr]
+
+private theorem mem_handed (method scheme target : Bytes) (hs l : List Header) (e : Bool)
+    (h : h2Headers method scheme target hs = some (l, e)) (x : Header) (hx : x ∈ hs)
+    (hn : ¬ (lower x.1 = ascii "host" ∨ lower x.1 = ascii "transfer-encoding")) :
+    (lower x.1, x.2) ∈ l := by
+  unfold h2Headers at h
+  split at h
+  · cases h
+  · simp only [Option.some.injEq, Prod.mk.injEq] at h
+    rw [← h.1]
+    apply List.mem_append_right
+    simp only [List.mem_map, List.mem_filter]
+    exact ⟨x, ⟨hx, by simpa [not_or] using hn⟩, rfl⟩
+
+/-- RFC 7540 §8.1.2.2: a `TE` header (any case) with a value other than `trailers` makes the head illegal -/
+theorem h2_refuses_te (method scheme target : Bytes) (hs l : List Header) (e : Bool)
+    (h : h2Headers method scheme target hs = some (l, e)) (x : Header) (hx : x ∈ hs)
+    (hname : strip (lower x.1) = ascii "te") (hne : lower x.1 ≠ ascii "host" ∧ lower x.1 ≠ ascii "transfer-encoding")
+    (hval : lower (strip x.2) ≠ ascii "trailers") : h2Refuses l = true := by
+  have hm := mem_handed method scheme target hs l e h x hx (by simp [hne.1, hne.2])
+  have : (h2Norm l).any (fun h => h.1 = ascii "te" && lower h.2 != ascii "trailers") = true := by
+    simp only [List.any_eq_true, h2Norm, List.mem_map]
+    exact ⟨(strip (lower (lower x.1)), strip x.2), ⟨_, hm, rfl⟩, by simp [hname, hval]⟩
+  simp [h2Refuses, this]
+
+/-- RFC 7540 §8.1.2.3 / `_check_path_header`: an empty request target makes the head illegal -/
+theorem h2_refuses_empty_path (method scheme : Bytes) (hs l : List Header) (e : Bool)
+    (h : h2Headers method scheme [] hs = some (l, e)) : h2Refuses l = true := by
+  have hm : (ascii ":path", ([] : Bytes)) ∈ l := by
+    unfold h2Headers at h
+    split at h
+    · cases h
+    · simp only [Option.some.injEq, Prod.mk.injEq] at h
+      rw [← h.1]; simp
+  have : (h2Norm l).any (fun h => h.1 = ascii ":path" && h.2 = []) = true := by
+    simp only [List.any_eq_true, h2Norm, List.mem_map]
+    exact ⟨(strip (lower (ascii ":path")), strip []), ⟨_, hm, rfl⟩, by decide⟩
+  simp [h2Refuses, this]
+
+/-- RFC 7540 §8.1.2.1: a caller's header whose name starts with `:` and is not one of the defined
+pseudo-header fields makes the head illegal -/
+theorem h2_refuses_custom_pseudo (method scheme target : Bytes) (hs l : List Header) (e : Bool)
+    (h : h2Headers method scheme target hs = some (l, e)) (x : Header) (hx : x ∈ hs)
+    (hp : isPseudo (strip (lower x.1)) = true) (hnot : allowedPseudo.contains (strip (lower x.1)) = false)
+    (hne : lower x.1 ≠ ascii "host" ∧ lower x.1 ≠ ascii "transfer-encoding") : h2Refuses l = true := by
+  have hm := mem_handed method scheme target hs l e h x hx (by simp [hne.1, hne.2])
+  have : (((h2Norm l).filter (fun h => isPseudo h.1)).map (·.1)).any (fun n => !allowedPseudo.contains n) = true := by
+    simp only [List.any_eq_true, List.mem_map, List.mem_filter, h2Norm]
+    refine ⟨strip (lower x.1), ⟨(strip (lower x.1), strip x.2), ⟨⟨_, hm, by simp⟩, hp⟩, rfl⟩, ?_⟩
+    show (!allowedPseudo.contains (strip (lower x.1))) = true
+    rw [hnot]; rfl
+  simp only [h2Refuses, this, Bool.or_true, Bool.true_or]
+
+/-! non-vacuity: each rule fires on a concrete head, and an ordinary head is accepted -/
+example : h2SendHead true (ascii "GET") (ascii "https") (ascii "/") [(ascii "Host", ascii "h"), (ascii "TE", ascii "gzip")] = .rejected := by decide
+example : h2SendHead true (ascii "GET") (ascii "https") [] [(ascii "Host", ascii "h")] = .rejected := by decide
+example : h2SendHead true (ascii "GET") (ascii "https") (ascii "/") [(ascii "Host", ascii "h"), (ascii ":foo", ascii "1")] = .rejected := by decide
+example : h2SendHead true (ascii "CONNECT") (ascii "https") (ascii "/") [(ascii "Host", ascii "h")] = .rejected := by decide
+example : h2SendHead true (ascii "GET") (ascii "https") (ascii "/") [(ascii "Host", ascii "h"), (ascii "Te", ascii " Trailers ")] =
+    .handed [(ascii ":method", ascii "GET"), (ascii ":authority", ascii "h"), (ascii ":scheme", ascii "https"), (ascii ":path", ascii "/"),
+             (ascii "te", ascii " Trailers ")] true := by decide
+/-- with validation switched off the same illegal head would be handed on: the theorem depends on the regenerated constant -/
+example : h2SendHead false (ascii "GET") (ascii "https") (ascii "/") [(ascii "Host", ascii "h"), (ascii "TE", ascii "gzip")] ≠ .rejected := by decide
+
 /-! non-vacuity -/
 example : writeRequest ⟨ascii "POST", ascii "/x", [(ascii "Host", ascii "h"), (ascii "Transfer-Encoding", ascii "Chunked")]⟩
     [ascii "ab", [], ascii "c"] =
